@@ -19,7 +19,18 @@ def heap_calls(ev):
   for i, e in enumerate(ev):
     if e.kind == 'call' and call_name(e.node) in ('Heap.Swap', 'Heap.FixUp', 'Heap.FixDown'):
       env = sym_env(ev, i)
-      out.append((i, call_attr(e.node), [U(sym_resolve(a, env)).replace(' ', '') for a in e.node.args]))
+      args = []
+      for a in e.node.args:
+        t = U(sym_resolve(a, env)).replace(' ', '')
+        # a local copy of an attribute (size = self._size) taken before other calls ran is not that attribute any more:
+        # hooks called in between (aperture: _OnNodeDown adds a member) change it
+        for nm in [x.id for x in ast.walk(a) if isinstance(x, ast.Name)]:
+          defs = [j for j, d in enumerate(ev[:i]) if d.kind == 'stmt' and isinstance(d.node, ast.Assign) and any(U(tg) == nm for tg in d.node.targets)
+                  and any(isinstance(x, ast.Attribute) and U(x.value) == 'self' for x in ast.walk(d.node.value))]
+          if defs and any(c.kind == 'call' and U(c.node.func).startswith('self.') for c in ev[defs[-1] + 1:i]):
+            t = 'stale(%s)' % t
+        args.append(t)
+      out.append((i, call_attr(e.node), args))
   return out
 
 
@@ -127,6 +138,9 @@ def check(ctx):
   r4(ctx)
   r5(ctx)
   r6(ctx)
+  from . import c04
+  ctx.rule('C04.R2', 'shared with C04: the balancer releases the member (load decrement, heap repair) before it forwards the response upward -- forwarding can re-enter the balancer')
+  c04.r1_r2(ctx)
 
 
 def r1(ctx):
@@ -195,6 +209,25 @@ def r2(ctx):
       ctx.ob('C03.R2', g, 'a closed, not-yet-down root is penalised, sifted down and queued for resurrection, then selection repeats',
              okw and okh and okq and cond_ok and ex[0] in ('fall', 'continue') and len(nd) == 1,
              'mark-down path: load writes %s, heap ops %s, queued %s, facts %s' % (lw, hc, okq, fs), why)
+  # every selection first walks the down queue: that walk is the only place where a member whose channel is open again gets its
+  # penalty removed -- a selection that returns before it leaves recovered members penalised for as long as any healthy peer exists
+  g_loops = [n_ for n_ in g.node.body if isinstance(n_, ast.While)]
+  sel_body = g_loops[0].body if len(g_loops) == 1 else g.node.body
+  n_sel = 0
+  scanned_all = True
+  for ev, ex in enum_paths(ctx, g, body=sel_body):
+    if ex[0] != 'ret':
+      continue
+    n_sel += 1
+    ri = [i for i, e in enumerate(ev) if e.kind == 'ret'][-1]
+    # the scan is over when its cursor was found to be None: a loop-condition event on a name that was read from self._downq
+    cur = [U(e.node.targets[0]) for e in ev[:ri] if e.kind == 'stmt' and isinstance(e.node, ast.Assign) and U(e.node.value) == 'self._downq' and isinstance(e.node.targets[0], ast.Name)]
+    done = [e for e in ev[:ri] if e.kind == 'cond' and cur and any((t_ in ('%sisnotNone' % cur[0], cur[0]) and not v_) or (t_ in ('%sisNone' % cur[0], 'not%s' % cur[0]) and v_) for t_, v_ in FACTS([e]))]
+    if not done:
+      scanned_all = False
+  ctx.ob('C03.R2', g, 'every selection walks the down queue before it returns a member', scanned_all and n_sel >= 1,
+         'a return path of __Get does not pass the end of the down-queue walk: recovered members keep their penalty (and get no traffic) while a healthy peer sits at the root',
+         'a member whose connection is up again is used again (C09: within one retry interval, without any change to the server set)')
   ctx.floor('C03.R2', 'selection return paths', n_ret, 2)
   ctx.floor('C03.R2', 'mark-down paths', n_down, 1)
   # down-queue scan: resurrect open nodes, unlink, keep the list intact
